@@ -158,6 +158,7 @@ func VerifC11Expiry() {
 // behind a handle) is never touched by two goroutines without an ordering between them.
 func VerifC12Pool() {
 	srv := ch.VerifNewServer()
+	srv.Safe = true
 	maxConns := int32(verifIntRange("maxconns", 1, 2))
 	verifSchedPolicy([3]string{"first", "last", "rr"}[verifChoice("policy", 3)], 0)
 	// the options (with room to spare in the settings slice) are shared by every connection of the pool
@@ -228,7 +229,20 @@ func VerifC11History() {
 	}
 	steps := verifIntRange("steps", 1, verifParam("maxsteps", 3))
 	for s := 0; s < steps; s++ {
-		switch verifChoice("op", 5) {
+		switch verifChoice("op", 7) {
+		case 5, 6: // the pool's own Do / Ping: acquire, use, release on every path - also when the query fails
+			if held() >= int(maxConns) {
+				break // it would wait for a release that this history does not contain
+			}
+			before := srv.Dials()
+			if verifChoice("poolop", 2) == 0 {
+				// the scripted server answers a query with a Pong: the query fails after it was sent
+				verifAssert(p.Do(ctx, ch.Query{Body: "SELECT 1"}) != nil, "pool-do-fails-on-this-server")
+			} else {
+				verifAssert(p.Ping(ctx) == nil, "pool-ping-ok")
+			}
+			verifSettle()
+			_ = before
 		case 0: // acquire
 			actx, cancel := context.WithCancel(ctx)
 			exhausted := held() >= int(maxConns)
